@@ -886,6 +886,10 @@ def entry_points(rs, variant=0, fam='generic'):
     add('FAIL/crosscov/mismatched', ut.crosscov, A(N), A(N - 1))
     add('FAIL/crosscov_vector/mismatched', ut.crosscov_vector, A(2, N), A(3, N - 1))
     add('FAIL/periodogram_csd/non-contiguous-3d', alg.periodogram_csd, np.asarray(A(2, 4, N))[:, ::2, :])
+    # a supplied n-d transform and a call that fails AFTER the routine has looked at it (Fs=None): Sk keeps its shape and bytes
+    s3_ = np.asarray(A(2, 2, N))
+    add('FAIL/periodogram_csd/Sk-3d-bad-Fs', alg.periodogram_csd, s3_, Sk=np.fft.fft(s3_), Fs=None)
+    add('FAIL/periodogram/Sk-3d-bad-Fs', alg.periodogram, s3_ + 0j, Sk=np.fft.fft(s3_), Fs=None)
     time_entry_points(rs, add, A, C, N)
     return E
 
